@@ -282,6 +282,33 @@ pub fn run(ctx: &mut Ctx) {
     // HelloRequest first, then application data on the same flow (never reported)
     emit_packets(ctx, 8, &[(0, handshake_record(&[(0, vec![])])), (0, vec![0x17, 3, 3, 0, 2, 9, 9]), (0, vec![9; 40])], false);
 
+    // a hello whose own bytes contain what looks like the start of a handshake record (random and
+    // session id begin 16 03 0x ..): every single cut, reader API and packet level — a continuation
+    // segment that happens to start with those bytes continues the record of an ACTIVE flow
+    {
+        let mut sid = vec![0x16, 0x03, 0x03, 0x00, 0x20];
+        sid.extend((0..27).map(|i| 0xa0 + i as u8));
+        let mut rnd = vec![0x16, 0x03, 0x01, 0x00, 0x10];
+        rnd.extend((0..27).map(|i| 0x40 + i as u8));
+        let tricky = Hello {
+            record_version: 0x0301,
+            legacy_version: 0x0303,
+            random: rnd,
+            session_id: sid,
+            ciphers: vec![0x1301, 0x1603, 0x0300],
+            compression: vec![0],
+            extensions: Some(vec![
+                Ext::ServerName(vec![(0, b"example.com".to_vec())]),
+                Ext::SupportedVersions(vec![0x0304, 0x0303]),
+            ]),
+        }
+        .encode();
+        for i in 1..tricky.len() {
+            emit_reader(ctx, &cut(&tricky, &[i]));
+            emit_packets(ctx, 4, &[(0, tricky[..i].to_vec()), (0, tricky[i..].to_vec())], i % 2 == 0);
+        }
+    }
+
     // ---- size boundary of the reader: needed = 65536 is parsed, 65537..65540 is "too large"; > 16640 is
     //      rejected by tls-parser
     for len in [16384usize, 16640, 16641, 65530, 65531, 65532, 65535] {
